@@ -29,6 +29,13 @@ CHECKS = {
  'C04': dict(cat='exploration', technique='bounded-exhaustive enumeration of callables (kind x argument pattern x default mask x return shape x scope); generated modules are compiled, imported and every binding executed against an instrumented mock library that records entity, this, argument values and result',
              text='Every callable of the family (12 argument patterns x every trailing default mask + 13 return shapes, as method / const method / static / function / constructor, in up to 3 scopes) plus overload sets, class/method/function templates with explicit arguments, 30 operators, properties, enumerators, inheritance and variables is compiled from the real generator output and called positionally, with reversed keywords, mixed, with each defaulted suffix omitted, with an extra argument and without instance; the recorded C++ call must be the declared entity with the supplied values in declared order, defaults filled by the declared literals, and the result returned (None for void).',
              note='Mock library generator and driver trusted; types limited to what can be implemented without Eigen/Boost.', ref='2/C04'),
+
+ 'C05': dict(cat='model_checking', technique='explicit-state exploration of the id allocator: every declaration sequence up to a depth bound is run through the real MatlabWrapper; invariant (ids = cases = 0..n-1, one routine per case, call-site role = routine role) checked in every state',
+             text='Breadth-first exploration of all declaration sequences of length <=3 (4) over a 16-letter alphabet (plain/virtual/derived/templated/serializable/ignored classes, overloads with defaults, statics, properties, functions, templated functions, enums, namespaces) plus length 4 (5..6) over a 6-letter core; each transition runs the real generator on the extended interface; in every reached state the ids at all .m call sites, the switch cases and the routine definitions must be in bijection and the role of each call site (read from the .m AST: class, constructor/collector/up-cast/destructor/method/static/getter/setter/function/serialization, member, arity) must equal the role of the routine its case runs (read from the C++ body).',
+             note='mini-MATLAB parser and routine-body recognisers trusted; states canonicalised as (next id, role multiset).', ref='2/C05'),
+ 'C12': dict(cat='exploration', technique='bounded-exhaustive re-layout: every token gap of a seed corpus x a filler alphabet of whitespace and comments; parse tree projection and generator outputs compared with the canonical layout',
+             text='6 seed modules covering every grammar production x every gap between adjacent dialect tokens x 9 (15) fillers (whitespace kinds, C/C++ comments containing braces, semicolons, quotes, keywords, star runs, several comments in a row), all-gaps and alternating variants, (thorough) all gap pairs on small seeds; the parse-tree projection must be identical and the pybind output and MATLAB tree byte-identical to the canonical layout.',
+             note='Dialect terminals atomic (defaults, include header, multi-word keywords); differential oracle.', ref='2/C12'),
 }
 NOT_YET = 'check not built yet in this session (see DESIGN.md for the planned exhaustive exploration)'
 
